@@ -19,8 +19,12 @@ func init() {
 		e := map[string]any{"property_id": id, "tier": "quick", "seed": 1, "level": "other", "wall_s": 0.0, "violations": 0,
 			"coverage": map[string]any{"explanation": "nothing explored: " + reason, "exhaustive": false}, "assumptions": []string{}}
 		raw, _ := json.MarshalIndent(e, "", " ")
-		os.MkdirAll(filepath.Join(ev.VerifDir, "evidence"), 0o755)
-		os.WriteFile(filepath.Join(ev.VerifDir, "evidence", id+".json"), raw, 0o644)
+		evDir := os.Getenv("VERIF_EVIDENCE_DIR")
+		if evDir == "" {
+			evDir = filepath.Join(ev.VerifDir, "evidence")
+		}
+		os.MkdirAll(evDir, 0o755)
+		os.WriteFile(filepath.Join(evDir, id+".json"), raw, 0o644)
 		os.Exit(0)
 	}
 }
